@@ -2131,6 +2131,14 @@ def check_c36(A: Analysis, col: Collector):
             reach = R.cfg.reachable_from([m for _, m in s.succ])
             if any(o.id in reach for o in sn):
                 col.fail("C36.pairing", fn.qualname, "start-record-twice", "start_audit can run twice on one path", A.loc(s.stmt))
+    # the end record is sent on every normal path through finalize_audit: no return before it
+    end_call = ends[0][0]
+    early = [r for r in walk_own(fa.node) if isinstance(r, ast.Return) and r.lineno < end_call.lineno]
+    if early:
+        g = next((p_ for p_ in parents(early[0]) if isinstance(p_, ast.If)), None)
+        col.fail("C36.pairing", fa.qualname, f"end-record-skipped-by-early-return:{shape(g.test, 40) if g is not None else 'unconditional'}", f"`return` under `{norm(g.test, 50) if g is not None else 'no condition'}` leaves finalize_audit before the record that closes the activity is sent: the job's start record has no end record and its failure is recorded nowhere", A.loc(early[0]))
+    else:
+        col.ok("C36.pairing", "finalize_audit has no return before the end record", A.loc(end_call))
     # (b) shared state across re-entrant activations
     carried = set()
     for n in walk_own(sa.node):
@@ -2140,6 +2148,27 @@ def check_c36(A: Analysis, col: Collector):
                     carried.add(t.attr)
     read_in_end = {n.attr for n in walk_own(fa.node) if isinstance(n, ast.Attribute) and dotted(n.value) == "self" and isinstance(n.ctx, ast.Load)}
     carried &= read_in_end
+    # record state kept by mutating a container that is created once in __init__: a shallow copy of the
+    # Audit object (copy.copy) shares that container with the original and with every other copy
+    containers = set()
+    for m in (sa, fa, audit.find_method("monitor")):
+        if m is None:
+            continue
+        for n in walk_own(m.node):
+            if isinstance(n, ast.Assign):
+                for t in n.targets:
+                    if isinstance(t, ast.Subscript) and isinstance(t.value, ast.Attribute) and dotted(t.value.value) == "self":
+                        containers.add(t.value.attr)
+            if isinstance(n, ast.Call) and isinstance(n.func, ast.Attribute) and n.func.attr in ("update", "setdefault", "append", "add") and isinstance(n.func.value, ast.Attribute) and dotted(n.func.value.value) == "self":
+                containers.add(n.func.value.attr)
+    if containers:
+        ji0 = A.func("pydra.engine.job.Job.__init__")
+        deep = any(isinstance(n, ast.Assign) and any(isinstance(t, ast.Attribute) and t.attr == "audit" for t in n.targets) and isinstance(n.value, ast.Call) and any(q == "copy.deepcopy" or q.endswith(".Audit") for q in A.callee_names(n.value, ji0)) for n in walk_own(ji0.node))
+        if deep:
+            col.ok("C36.reentrancy", f"record state kept in {sorted(containers)} lives on a deep copy / fresh Audit per job", A.loc(sa.node))
+        else:
+            col.fail("C36.reentrancy", "pydra.engine.audit.Audit", "record-state-in-shared-container:" + "+".join(sorted(containers)), f"start_audit / monitor / finalize_audit keep per-job record state by mutating `self.{sorted(containers)[0]}`, a container created once in __init__; Job.__init__ gives each job a *shallow* copy of the submitter's Audit, so all jobs share that container: a nested job overwrites the enclosing job's activity id, whose start record never gets its end record (and the nested job gets two)", A.loc(sa.node))
+        return
     if "aid" not in carried:
         col.ok("C36.reentrancy", "the activity id is not carried through an attribute of the Audit object", A.loc(sa.node))
         return
